@@ -8,7 +8,7 @@ import click
 import peewee as pw
 
 from ...common.util import pretty_bytes
-from ...db import ArchiveFile, ArchiveFileCopy, database_proxy, utcnow
+from ...db import ArchiveFile, ArchiveFileCopy, StorageNode, database_proxy, utcnow
 from ..cli import check_then_update, echo
 from ..options import (
     check_if_from_stdin,
@@ -19,6 +19,7 @@ from ..options import (
     resolve_acq,
     resolve_group,
     resolve_node,
+    state_constraint,
 )
 
 
@@ -87,8 +88,16 @@ def _run_query(
             else:
                 raise click.ClickException(f'Cannot clean archive node "{name}".')
 
-        # Resolve targets
-        target_files = files_in_groups(resolve_group(target), in_any=False)
+        # Resolve targets.  The copy on the node being cleaned doesn't count:
+        # if NODE itself is in a target group, the file must be available on
+        # _another_ node of that group.  (Otherwise the copy we're about to
+        # remove is what makes the file "available in the target", and
+        # repeating the command selects a different set of files.)
+        target_files = files_in_groups(
+            resolve_group(target),
+            state_expr=state_constraint(healthy=True) & (StorageNode.id != node.id),
+            in_any=False,
+        )
 
         # Are there any target files?
         if target_files is not None and len(target_files) == 0:
